@@ -26,7 +26,7 @@ ASSUMPTIONS = [
     'Rayleigh and Mie components are checked for proportionality to abundance / against C19, not against an independent cross-section',
     'H- (HydrogenIon) is generated with constant H and e- abundances: its absorption law is outside this property and is not judged; the product rule, order independence, single component and proportionality to the electron abundance are',
 ]
-REQUIRED = {'opacity:ktables': 0.06, 'has-hminus': 0.1, 'probe:contrib-first': 0.08, 'ncontrib>=2': 0.5, 'multi-component': 0.4, 'zero-species': 0.15, 'probe:fresh': 0.1,
+REQUIRED = {'chemistry:stored': 0.2, 'opacity:ktables': 0.06, 'has-hminus': 0.1, 'probe:contrib-first': 0.08, 'ncontrib>=2': 0.5, 'multi-component': 0.4, 'zero-species': 0.15, 'probe:fresh': 0.1,
             'probe:subgrid': 0.1, 'probe:param-change': 0.1}
 POOL = ['Absorption', 'CIA', 'Rayleigh', 'SimpleClouds', 'FlatMie', 'LeeMie', 'HydrogenIon']
 
@@ -47,6 +47,8 @@ def _case(draw):
                      mags=['mixed', 'mixed', 'transparent', 'saturated']))
     w['extras'] = ['CIA', 'SimpleClouds']
     w['ktables'] = draw(st.sampled_from([True, False]))
+    # a chemistry that hands out the arrays it keeps instead of copies (same numbers)
+    w['chem_form'] = draw(st.sampled_from(['copies', 'stored', 'copies', 'stored']))
     if draw(st.booleans()):
         w['wn0'] = w['wn0'] * 6.0       # towards the visible, where Rayleigh scattering and hazes carry real optical depth
     # H- needs atomic hydrogen and free electrons in the mixture
@@ -115,6 +117,7 @@ def check(case):
     mie = case['mie']
     kw = {'new_path_method': case['new_path']}
     out.cls('probe:' + case['probe'])
+    out.cls('chemistry:' + w.get('chem_form', 'copies'))
     try:
         wz = copy.deepcopy(w)
         if case['zero']:
@@ -369,4 +372,6 @@ def build(w, e_scale=1.0):
         from taurex.data.profiles.chemistry import ConstantGas
         W.chemistry.addGas(ConstantGas('H', mix_ratio=10.0 ** w['hminus']['H']))
         W.chemistry.addGas(ConstantGas('e-', mix_ratio=e_scale * 10.0 ** w['hminus']['e']))
+    if w.get('chem_form') == 'stored':
+        W.chemistry.__class__ = synth.stored_array_chemistry()
     return W
